@@ -33,6 +33,10 @@ func countEpoch(spec *common.Spec, c Counters, pre, post *absstate.State) {
 	if post.CurJust.Epoch > pre.CurJust.Epoch {
 		c.Add("epochs_justifying", 1)
 	}
+	inLeak := prevEpoch-pre.Fin.Epoch > int(spec.MIN_EPOCHS_TO_INACTIVITY_PENALTY)
+	if pre.Fork != post.Fork && inLeak {
+		c.Add("leak_across_fork_boundary", 1)
+	}
 	if pre.Fork != post.Fork {
 		c.Add("fork_upgrades", 1)
 		c.Add("upgrade_to_"+post.Fork, 1)
@@ -123,6 +127,19 @@ func countEpoch(spec *common.Spec, c Counters, pre, post *absstate.State) {
 	c.Add("activation_queue_entries", queued)
 	c.Add("effective_balance_changes", effChanged)
 	c.Add("slashing_penalties", slashPenalised)
+	if slashPenalised >= 2 {
+		c.Add("correlated_slashing_penalties", 1)
+	}
+	// top-ups made during the epoch (marks left by countBlock) that lift the effective balance
+	for i := 0; i < n; i++ {
+		k := fmt.Sprintf("_topup_%d", i)
+		if c[k] > 0 {
+			if post.Validators[i].Eff > pre.Validators[i].Eff {
+				c.Add("topup_crossed_hysteresis", 1)
+			}
+			delete(c, k)
+		}
+	}
 	c.Add("balance_increases", balUp)
 	c.Add("balance_decreases", balDown)
 	if len(post.HistoricalRoots) > len(pre.HistoricalRoots) {
@@ -220,12 +237,73 @@ func countBlock(spec *common.Spec, c Counters, ev *blockEvent, pre *absstate.Sta
 	if post.Eth1 != pre.Eth1 {
 		c.Add("eth1_data_changes", 1)
 	}
+	epoch := pre.Slot / int(spec.SLOTS_PER_EPOCH)
 	for i := range pre.Validators {
 		if !pre.Validators[i].Slashed && post.Validators[i].Slashed {
 			c.Add("validators_slashed", 1)
+			if pre.Validators[i].Exit != absstate.Far {
+				c.Add("slashed_while_exiting", 1)
+			}
 		}
 		if pre.Validators[i].Exit == absstate.Far && post.Validators[i].Exit != absstate.Far {
 			c.Add("exits_initiated_in_block", 1)
+			if post.Validators[i].Exit > epoch+1+int(spec.MAX_SEED_LOOKAHEAD) {
+				c.Add("exit_queued_behind_earlier_exits", 1)
+			}
+		}
+	}
+	// deposits to existing validators (top-ups): of an exited validator / marks for the hysteresis class
+	for _, d := range b.Deposits {
+		for i := range pre.Validators {
+			if pre.Validators[i].Pk == d.Pk {
+				c.Add("deposit_topups", 1)
+				if pre.Validators[i].Exit <= epoch {
+					c.Add("topup_of_exited_validator", 1)
+				}
+				if pre.Validators[i].Eff < int(spec.MAX_EFFECTIVE_BALANCE) {
+					c[fmt.Sprintf("_topup_%d", i)] = 1
+				}
+				break
+			}
+		}
+	}
+	for _, ch := range b.BLSChanges {
+		c[fmt.Sprintf("_bls_%d", ch.Validator)] = pre.Slot
+	}
+	// eth1 voting edge: this block's vote reaches exactly half / half + 1 of the period
+	{
+		period := int(spec.EPOCHS_PER_ETH1_VOTING_PERIOD) * int(spec.SLOTS_PER_EPOCH)
+		same := 0
+		for _, v := range post.Eth1Votes {
+			if v == b.Eth1Vote {
+				same++
+			}
+		}
+		if b.Eth1Vote != pre.Eth1 {
+			if same*2 == period {
+				c.Add("eth1_vote_exactly_half_not_adopted", 1)
+			}
+			if same*2 == period+2 && post.Eth1 == b.Eth1Vote {
+				c.Add("eth1_vote_half_plus_one_adopted", 1)
+			}
+		}
+	}
+	// inclusion delay classes
+	sq := 1
+	for (sq+1)*(sq+1) <= int(spec.SLOTS_PER_EPOCH) {
+		sq++
+	}
+	for _, a := range b.Atts {
+		d := pre.Slot - a.Data.Slot
+		switch {
+		case d == 1:
+			c.Add("atts_delay_1", 1)
+		case d <= sq:
+			c.Add("atts_delay_upto_sqrt", 1)
+		case d <= int(spec.SLOTS_PER_EPOCH):
+			c.Add("atts_delay_upto_epoch", 1)
+		default:
+			c.Add("atts_delay_beyond_epoch", 1)
 		}
 	}
 	if b.Sync != nil {
@@ -237,6 +315,16 @@ func countBlock(spec *common.Spec, c Counters, ev *blockEvent, pre *absstate.Sta
 		c.Add("sync_bits_unset", len(b.Sync.Bits)-set)
 		if set > 0 && set < len(b.Sync.Bits) {
 			c.Add("sync_aggregates_partial", 1)
+			if pre.SyncCur != nil {
+				seen := map[string]bool{}
+				for _, pk := range pre.SyncCur.Pks {
+					if seen[pk] {
+						c.Add("sync_partial_with_duplicate_members", 1)
+						break
+					}
+					seen[pk] = true
+				}
+			}
 		}
 		if set == 0 {
 			c.Add("sync_aggregates_empty", 1)
@@ -250,10 +338,19 @@ func countBlock(spec *common.Spec, c Counters, ev *blockEvent, pre *absstate.Sta
 		}
 		c.Add("withdrawals", len(b.Payload.Withdrawals))
 		for _, w := range b.Payload.Withdrawals {
-			if w.Validator < len(pre.Balances) && w.Amount == pre.Balances[w.Validator] {
+			full := w.Validator < len(pre.Balances) && w.Amount == pre.Balances[w.Validator]
+			if full {
 				c.Add("withdrawals_full", 1)
 			} else {
 				c.Add("withdrawals_partial", 1)
+			}
+			if at, ok := c[fmt.Sprintf("_bls_%d", w.Validator)]; ok && pre.Slot-at <= 2*int(spec.SLOTS_PER_EPOCH) {
+				if full {
+					c.Add("full_withdrawal_after_bls_change", 1)
+				} else {
+					c.Add("partial_withdrawal_after_bls_change", 1)
+				}
+				delete(c, fmt.Sprintf("_bls_%d", w.Validator))
 			}
 		}
 		if len(b.Payload.Withdrawals) > 0 {
